@@ -80,6 +80,18 @@ def mk_index(base, idx):
     of x."""
     if idx[0] in ("elem", "elem2") and idx[1] == _range_len(base):
         return (idx[0], base)
+    if idx[0] == "const" and isinstance(idx[1], int) \
+            and not isinstance(idx[1], bool):
+        # a literal sequence indexed by a literal position: that element
+        if base[0] in ("tuple", "list") and -len(base[1]) <= idx[1] < len(
+                base[1]):
+            return base[1][idx[1]]
+        if base[0] == "const" and isinstance(base[1], tuple) \
+                and -len(base[1]) <= idx[1] < len(base[1]):
+            v = base[1][idx[1]]
+            if isinstance(v, (str, int, float, bool, tuple, type(None),
+                              frozenset, bytes)):
+                return ("const", v)
     if base[0] == "call" and base[1][0] == "attr" \
             and base[1][2] == "partition" and len(base[2]) == 1 \
             and not base[3] and idx in (("const", 0), ("const", 2)):
@@ -1111,6 +1123,15 @@ class Interp:
             return self.comprehension(node, env)
         if isinstance(node, ast.Starred):
             return ("unop", "star", self.eval(node.value, env))
+        if isinstance(node, ast.NamedExpr):
+            # (x := e): e's value, and x is bound to it in the function's
+            # scope (a comprehension's own scope is passed through)
+            v = self.eval(node.value, env)
+            e2 = env
+            while e2 is not None:
+                e2[node.target.id] = v
+                e2 = e2.get("<enclosing scope>")
+            return v
         raise AnalysisError("expression %s outside the interpreter "
                             "vocabulary (%s:%d)"
                             % (type(node).__name__, self.fi.qualname,
@@ -1165,6 +1186,7 @@ class Interp:
             # r.append(f(x))  -- the same events in the same order (several
             # `for` clauses nest)
             env2 = dict(env)
+            env2["<enclosing scope>"] = env
             if into is None:
                 self.fresh_counter += 1
                 res = ("newlist", self.fresh_counter)
@@ -2444,6 +2466,12 @@ def carried_state_policy(fnode):
                     r = "twice"
                 elif _container_carried(loop):
                     r = "twice"
+        elif isinstance(loop, (ast.ListComp, ast.GeneratorExp, ast.SetComp,
+                               ast.DictComp)) and any(
+                isinstance(n, ast.NamedExpr) for n in ast.walk(loop)):
+            # an assignment expression inside a comprehension leaves its
+            # last value behind: state that outlives the iterations
+            r = "twice"
         elif isinstance(loop, ast.While):
             # a while loop runs on state its body changes: two rounds, so
             # that what the first leaves behind (an accumulator, the rest of
